@@ -29,6 +29,9 @@ Qed.
 Lemma all_methods_bracketed : forallb (fun p => atomic_shape (snd p)) shapes = true.
 Proof. vm_compute. reflexivity. Qed.
 
+Lemma no_discarded_db_result : forallb (fun p : string * bool => snd p) swallows = true.
+Proof. vm_compute. reflexivity. Qed.
+
 (** ---- bridge ------------------------------------------------------------------------------- *)
 
 Lemma log_apply_all ws : forall l, apply_all (list N) log_apply ws l = l ++ ws.
